@@ -12,7 +12,7 @@ ORDER = ["A", "B", "C"]
 
 def make_param(kind):
     if kind == "plain":
-        return param.Integer(0, bounds=(0, 5))
+        return param.Integer(0, bounds=(0, 5), allow_None=True)
     if kind == "mut_inst":
         return param.List(default=[], instantiate=True, allow_refs=True)
     if kind == "sel0":
@@ -28,7 +28,7 @@ def make_param(kind):
     if kind == "readonly":
         return param.Integer(0, readonly=True)
     if kind == "noperinst":
-        return param.Integer(0, bounds=(0, 5), per_instance=False)
+        return param.Integer(0, bounds=(0, 5), per_instance=False, allow_None=True)
     raise ValueError(kind)
 
 
@@ -39,6 +39,8 @@ class System:
         bases = opts.get("bases") or {c: ([opts["classes"][i - 1]] if i else []) for i, c in enumerate(opts["classes"])}
         for c in sorted(bases):        # names are in definition order
             ns = {n: make_param(k) for n, k in self.kinds.items()} if not bases[c] else {}
+            if not bases[c]:
+                ns["__len__"] = lambda self: 0       # container-like and currently empty: instances are falsy
             self.classes[c] = type(c, tuple(self.classes[b] for b in bases[c]) or (param.Parameterized,), ns)
         self.cnames = sorted(bases)
         self.cbfail = []
@@ -77,6 +79,10 @@ class System:
             def skip(v):
                 raise param.Skip
             return param.bind(skip, self.src.param.v)
+        if v["t"] == "none":
+            return None
+        if v["t"] == "gen":
+            return lambda: 1
         if v["t"] == "int":
             return v["v"]
         if v["t"] == "newcell":
@@ -104,7 +110,11 @@ class System:
                 cls = self.classes[a["c"]]
                 setattr(cls, a["n"], float(getattr(cls, a["n"])) if a["v"]["t"] == "badeq" else self.val(a["v"]))
             elif n == "addparam":
-                self.classes[a["c"]].param.add_parameter(a["n"], param.Integer(self.val(a["v"]), bounds=(0, 5)))
+                newp = param.Integer(self.val(a["v"]), bounds=(0, 5), allow_None=True)
+                if a.get("route", "add") == "add":
+                    self.classes[a["c"]].param.add_parameter(a["n"], newp)
+                else:
+                    setattr(self.classes[a["c"]], a["n"], newp)
             elif n == "new":
                 kw = {k: self.val(v) for k, v in (a["kw"].items() if isinstance(a["kw"], dict) else [])}
                 self.insts.append(self.classes[a["c"]](**kw))
@@ -117,6 +127,8 @@ class System:
                     i.param.update(**{a["n"]: v})
             elif n == "instmeta":
                 self.insts[a["i"] - 1].param[a["n"]].precedence = a["b"]
+            elif n == "instconst":
+                self.insts[a["i"] - 1].param[a["n"]].constant = a["b"]
             elif n == "instobjs":
                 self.insts[a["i"] - 1].param[a["n"]].objects.append(a["tok"])
             elif n == "classobjs":
@@ -200,7 +212,7 @@ class System:
         elif name == "readns":
             ns_classes.add(act["c"])
             ns_insts.update(k for k, i in enumerate(self.insts) if type(i).__name__ == act["c"])
-        elif name in ("instparam", "instmeta", "instset", "mutateinst", "enteredit", "exitedit", "instobjs"):
+        elif name in ("instparam", "instmeta", "instset", "mutateinst", "enteredit", "exitedit", "instobjs", "instconst"):
             ns_insts.add(act["i"] - 1)
         elif name in ("addparam", "classobjs", "classmeta"):
             ns_classes.add(act["c"])
@@ -230,6 +242,8 @@ class System:
                 # C13: the namespace agrees with attribute access
                 if n not in cls.param:
                     return ("namespace", "after %s: %r is an attribute of %s but not listed in %s.param" % (name, n, c, c))
+                if cls.param[n].name != n:
+                    return ("namespace", "after %s: %s.param[%r] calls itself %r" % (name, c, n, cls.param[n].name))
                 if cls.param[n] is not static:
                     return ("namespace", "after %s: %s.param[%r] is not the Parameter that governs %s.%s (it belongs to %s, default %r; attribute value %r)"
                             % (name, c, n, c, n, getattr(cls.param[n].owner, "__name__", None), cls.param[n].default, v))
@@ -256,7 +270,7 @@ class System:
                 if existing is None:
                     continue
                 pv = inst.param.values()[n]
-                if pv is not v and pv != v:
+                if pv is not v and pv != v and not callable(pv):     # (dynamic values: the generator itself is listed)
                     return ("namespace", "after %s: instance %d .param.values()[%r] is %r but attribute is %r" % (name, k + 1, n, pv, v))
                 static = inspect.getattr_static(type(inst), n)
                 po = existing.get(n)
